@@ -9,6 +9,7 @@
 -/
 import XotModel.Model.Parse
 import XotModel.Model.TokenRender
+import XotModel.Lemmas.ParseQName
 
 namespace XotModel
 
@@ -383,45 +384,45 @@ theorem pi_erase {b b' : Builder} (hb : b.erase = b'.erase) {t t' : StrSpan} (ht
 
 /-! ### One token, the token loop -/
 
-/-- A step commutes with erasure of the token (and of the state). -/
-theorem step_erase1 {b b' : Builder} (hb : b.erase = b'.erase) (t : Token) :
-    (b.step t).er Builder.erase = (b'.step t.erase).er Builder.erase := by
+/-- An arm commutes with erasure of the token (and of the state). -/
+theorem stepCore_erase1 {b b' : Builder} (hb : b.erase = b'.erase) (t : Token) :
+    (b.stepCore t).er Builder.erase = (b'.stepCore t.erase).er Builder.erase := by
   cases t with
   | «attribute» pfx loc value sp =>
-    simp only [Token.erase, Builder.step, StrSpan.erase]
+    simp only [Token.erase, Builder.stepCore, StrSpan.erase]
     split
     · exact prefix_erase hb _ (by rfl) _ _
     · split
       · exact prefix_erase hb _ (by rfl) _ _
       · exact attribute_erase hb (by rfl) (by rfl) (by rfl)
-  | text t => simp only [Token.erase, Builder.step]; exact text_erase hb (by rfl)
-  | cdata t sp => simp only [Token.erase, Builder.step]; exact cdata_erase hb (by rfl)
+  | text t => simp only [Token.erase, Builder.stepCore]; exact text_erase hb (by rfl)
+  | cdata t sp => simp only [Token.erase, Builder.stepCore]; exact cdata_erase hb (by rfl)
   | elementStart pfx loc sp =>
-    simp only [Token.erase, Builder.step, Step.er_ok, Option.some.injEq]
+    simp only [Token.erase, Builder.stepCore, Step.er_ok, Option.some.injEq]
     exact element_erase hb (by rfl) (by rfl)
   | elementEnd e sp =>
     cases e with
-    | «open» => simp only [Token.erase, Builder.step]; exact openElement_erase hb
-    | close pfx loc => simp only [Token.erase, Builder.step]; exact closeElement_erase hb (by rfl) (by rfl) _ _
+    | «open» => simp only [Token.erase, Builder.stepCore]; exact openElement_erase hb
+    | close pfx loc => simp only [Token.erase, Builder.stepCore]; exact closeElement_erase hb (by rfl) (by rfl) _ _
     | empty =>
-      simp only [Token.erase, Builder.step]
+      simp only [Token.erase, Builder.stepCore]
       rcases Step.er_cases (openElement_erase hb) with ⟨n1, n2⟩ | ⟨c, c', s1, s2, s3⟩
       · rcases Step.er_none n1 with n1 | ⟨_, _, n1⟩ <;> rcases Step.er_none n2 with n2 | ⟨_, _, n2⟩ <;>
           rw [n1, n2] <;> rfl
       · rw [s1, s2]
         exact closeImmediate_erase s3 _ _
   | comment t sp =>
-    simp only [Token.erase, Builder.step, Step.er_ok, Option.some.injEq]
+    simp only [Token.erase, Builder.stepCore, Step.er_ok, Option.some.injEq]
     exact comment_erase hb (by rfl)
   | pi target content sp =>
-    simp only [Token.erase, Builder.step, StrSpan.erase]
+    simp only [Token.erase, Builder.stepCore, StrSpan.erase]
     split
     · rfl
     simp only [Step.er_ok, Option.some.injEq]
     refine pi_erase hb (by rfl) ?_
     cases content <;> rfl
   | declaration version enc sa sp =>
-    simp only [Token.erase, Builder.step, StrSpan.erase]
+    simp only [Token.erase, Builder.stepCore, StrSpan.erase]
     split
     · rfl
     · simp only [Step.er_ok, hb]
@@ -430,19 +431,30 @@ theorem step_erase1 {b b' : Builder} (hb : b.erase = b'.erase) (t : Token) :
   | emptyDtd sp => rfl
   | entityDecl sp => rfl
 
+/-- A step commutes with erasure of the token (and of the state), for a token that passes
+    `check_qname` (/repo a5fafb0: the one place where xot looks at a byte position - an empty
+    prefix at a non-zero offset is a colon with nothing in front of it; the erased token, all
+    offsets 0, always passes). -/
+theorem step_erase1 {b b' : Builder} (hb : b.erase = b'.erase) (t : Token) (hq : t.prefixOk = true) :
+    (b.step t).er Builder.erase = (b'.step t.erase).er Builder.erase := by
+  rw [b.step_eq_core hq, b'.step_eq_core (Token.erase_prefixOk t)]
+  exact stepCore_erase1 hb t
+
 /-- Erasure-equal states and erasure-equal tokens: erasure-equal results, or two failures. -/
-theorem step_erase {b b' : Builder} (hb : b.erase = b'.erase) {t t' : Token} (ht : t.erase = t'.erase) :
+theorem step_erase {b b' : Builder} (hb : b.erase = b'.erase) {t t' : Token} (ht : t.erase = t'.erase)
+    (hq : t.prefixOk = true) (hq' : t'.prefixOk = true) :
     (b.step t).er Builder.erase = (b'.step t').er Builder.erase := by
-  rw [step_erase1 hb t, ht, ← step_erase1 (rfl : b'.erase = b'.erase) t']
+  rw [step_erase1 hb t hq, ht, ← step_erase1 (rfl : b'.erase = b'.erase) t' hq']
 
 /-- `lexErr` matters only through being there. -/
 theorem run_erase : ∀ (ts ts' : List Token) (b b' : Builder) (le le' : Option Nat),
     b.erase = b'.erase → ts.map Token.erase = ts'.map Token.erase → le.isSome = le'.isSome →
+    tokensPrefixOk ts = true → tokensPrefixOk ts' = true →
     (b.run ts le).er Builder.erase = (b'.run ts' le').er Builder.erase := by
   intro ts
   induction ts with
   | nil =>
-    intro ts' b b' le le' hb hts hle
+    intro ts' b b' le le' hb hts hle _ _
     cases ts' with
     | cons t' r' => simp at hts
     | nil =>
@@ -454,17 +466,18 @@ theorem run_erase : ∀ (ts ts' : List Token) (b b' : Builder) (le le' : Option 
         · rw [q1, q2]; rfl
       · rfl
   | cons t r ih =>
-    intro ts' b b' le le' hb hts hle
+    intro ts' b b' le le' hb hts hle hq hq'
     cases ts' with
     | nil => simp at hts
     | cons t' r' =>
       simp only [List.map_cons, List.cons.injEq] at hts
+      simp only [tokensPrefixOk_cons, Bool.and_eq_true] at hq hq'
       simp only [Builder.run]
-      rcases Step.er_cases (step_erase hb hts.1) with ⟨n1, n2⟩ | ⟨c, c', s1, s2, s3⟩
+      rcases Step.er_cases (step_erase hb hts.1 hq.1 hq'.1) with ⟨n1, n2⟩ | ⟨c, c', s1, s2, s3⟩
       · rcases Step.er_none n1 with n1 | ⟨_, _, n1⟩ <;> rcases Step.er_none n2 with n2 | ⟨_, _, n2⟩ <;>
           rw [n1, n2] <;> rfl
       · rw [s1, s2]
-        exact ih r' c c' le le' s3 hts.2 hle
+        exact ih r' c c' le le' s3 hts.2 hle hq.2 hq'.2
 
 /-! ### The epilogues and `build` -/
 
@@ -540,12 +553,16 @@ theorem finishDocument_erase (len len' : Nat) {b b' : Builder} (hb : b.erase = b
 theorem new_erase (env : Env) : (Builder.new env).erase = (Builder.new env).erase := rfl
 
 /-- Byte positions (and the length of the source) do not matter for what `build` returns on
-    success, nor for whether it succeeds. The tokenizer error matters only through being there. -/
+    success, nor for whether it succeeds - for token lists that pass `check_qname`, the one test of
+    a byte position in xot: no empty prefix at a non-zero offset (`tokensPrefixOk`; a list that does
+    not pass is refused, `Builder.step_refused`). The tokenizer error matters only through being
+    there. -/
 theorem build_erase_lex (mode : Mode) (len len' : Nat) (env : Env) (ts ts' : List Token)
-    (le le' : Option Nat) (h : ts.map Token.erase = ts'.map Token.erase) (hle : le.isSome = le'.isSome) :
+    (le le' : Option Nat) (h : ts.map Token.erase = ts'.map Token.erase) (hle : le.isSome = le'.isSome)
+    (hq : tokensPrefixOk ts = true) (hq' : tokensPrefixOk ts' = true) :
     (build mode len env ts le).okPart = (build mode len' env ts' le').okPart := by
   unfold build
-  rcases Step.er_cases (run_erase ts ts' _ _ le le' (new_erase env) h hle) with
+  rcases Step.er_cases (run_erase ts ts' _ _ le le' (new_erase env) h hle hq hq') with
     ⟨n1, n2⟩ | ⟨c, c', s1, s2, s3⟩
   · rcases Step.er_none n1 with n1 | ⟨_, _, n1⟩ <;> rcases Step.er_none n2 with n2 | ⟨_, _, n2⟩ <;>
       rw [n1, n2] <;> rfl
@@ -555,16 +572,34 @@ theorem build_erase_lex (mode : Mode) (len len' : Nat) (env : Env) (ts ts' : Lis
     | fragment => exact finishFragment_erase s3
 
 theorem build_erase (mode : Mode) (len len' : Nat) (env : Env) (ts ts' : List Token)
-    (h : ts.map Token.erase = ts'.map Token.erase) :
+    (h : ts.map Token.erase = ts'.map Token.erase)
+    (hq : tokensPrefixOk ts = true) (hq' : tokensPrefixOk ts' = true) :
     (build mode len env ts none).okPart = (build mode len' env ts' none).okPart :=
-  build_erase_lex mode len len' env ts ts' none none h rfl
+  build_erase_lex mode len len' env ts ts' none none h rfl hq hq'
 
-/-- Corollary in the form the coordinator asked for. -/
+/-- The erased list decides: `build` on any list that passes `check_qname` is `build` on its
+    erasure (which always passes). -/
+theorem build_erase_self (mode : Mode) (len len' : Nat) (env : Env) (ts : List Token)
+    (hq : tokensPrefixOk ts = true) :
+    (build mode len env ts none).okPart = (build mode len' env (ts.map Token.erase) none).okPart :=
+  build_erase mode len len' env ts _ (by simp [Token.erase_erase]) hq (tokensPrefixOk_erase ts)
+
+/-- An accepted token list passes `check_qname`. -/
+theorem build_ok_prefixOk {mode : Mode} {len : Nat} {env : Env} {ts : List Token} {le : Option Nat}
+    {p : Parsed} (hp : build mode len env ts le = .ok p) : tokensPrefixOk ts = true := by
+  unfold build at hp
+  cases hr : (Builder.new env).run ts le with
+  | ok b => exact Builder.run_ok_prefixOk ts _ b le hr
+  | err e v => rw [hr] at hp; cases hp
+  | panic => rw [hr] at hp; cases hp
+
+/-- Corollary in the form the coordinator asked for: from an accepted list to any list with the
+    same erasure that passes `check_qname`. -/
 theorem build_erase_ok (mode : Mode) (len len' : Nat) (env : Env) (ts ts' : List Token)
-    (h : ts.map Token.erase = ts'.map Token.erase) (p : Parsed)
+    (h : ts.map Token.erase = ts'.map Token.erase) (hq' : tokensPrefixOk ts' = true) (p : Parsed)
     (hp : build mode len env ts none = .ok p) :
     ∃ p', build mode len' env ts' none = .ok p' ∧ p'.tree = p.tree ∧ p'.env = p.env ∧ p'.ids = p.ids := by
-  have he := build_erase mode len len' env ts ts' h
+  have he := build_erase mode len len' env ts ts' h (build_ok_prefixOk hp) hq'
   rw [hp] at he
   cases hb : build mode len' env ts' none with
   | ok p' =>
